@@ -7,7 +7,8 @@ class C15(Prop):
     id = "C15"
     title = "Milenage library implements TS 35.206 and accepts exactly valid AUTNs"
     lean_module = "Stgutg.Props.C15"
-    gen = []
+    gen = ["pure-milenage", "pure-selftest-mil"]
+    extra_modules = ["Stgutg.Proofs.GenTieMilenage", "Stgutg.Gen.PureSelftestMil"]
     theorems = [
         "Stgutg.Props.C15.f1_eq_spec",
         "Stgutg.Props.C15.f2345_eq_spec",
@@ -22,6 +23,14 @@ class C15(Prop):
         "Stgutg.Props.C15.resync",
         "Stgutg.Props.C15.auts_eq_spec",
         "Stgutg.Props.C15.auts_iff",
+        "Stgutg.Proofs.GenTie.Milenage.os_memcmp_eq",
+        "Stgutg.Proofs.GenTie.Milenage.milenageF1_eq",
+        "Stgutg.Proofs.GenTie.Milenage.F1_eq",
+        "Stgutg.Proofs.GenTie.Milenage.milenageF2345_eq",
+        "Stgutg.Proofs.GenTie.Milenage.F2345_eq",
+        "Stgutg.Proofs.GenTie.Milenage.GenerateOPC_eq",
+        "Stgutg.Proofs.GenTie.Milenage.Milenage_auts_eq",
+        "Stgutg.Proofs.GenTie.Milenage.Milenage_check_eq",
     ]
     domains = [Domain("milenage", 40, 1500)]
     rule = ("milenage: per base case (random K/OP/RAND/AMF, network SQN random or boundary) GenerateOPC, F1, F2345 (all and "
@@ -32,7 +41,32 @@ class C15(Prop):
             "and the TS 35.208 set stored in TestGenAuthData; non-trivial = well-sized arguments and an ok result; distinct by op line")
     trusted_base = ["crypto/aes is a parameter of the theorems (Prims.aes, assumed to map 16-octet blocks to 16-octet blocks); "
                     "Crypto/Aes.lean instantiates it for the comparator only (FIPS-197 and TS 35.208 known answers)",
-                    "output buffers are modelled as nil or fresh zeroed buffers of the documented size; slices have cap == len"]
+                    "output buffers are modelled as nil or fresh zeroed buffers of the documented size; slices have cap == len",
+                    "TIE BY TRANSLATION (gen pure-milenage, harness/cmd/gen/pure_milenage.go = the BUFFER grammar of the pure-* translators -> "
+                    "lean/Stgutg/Gen/PureMilenage.lean, regenerated from the source text of milenage.go on every run): os_memcmp, milenageF1, "
+                    "milenageF2345, F1, F2345, GenerateOPC, Milenage_auts, Milenage_check are tied by theorems generated = hand model (Proofs/GenTieMilenage*.lean: os_memcmp_eq "
+                    "for all slices and every count; milenageF1_eq / F1_eq / milenageF2345_eq / F2345_eq for ALL input lengths, every key, "
+                    "each output buffer nil or of its documented size holding anything (a present buffer receives the model's value, a "
+                    "NewCipher error leaves every buffer untouched, a trap is a trap); GenerateOPC_eq for all lengths; Milenage_auts_eq for all lengths, "
+                    "SQN buffer of 6 fresh octets: return code and SQN as the model says; Milenage_check_eq for all lengths, IK/CK/RES/AUTS buffers fresh "
+                    "and of the documented sizes, *res_len any value: return code, buffers and *res_len as the model says), so a change of the Go "
+                    "text changes the generated definition and the theorem stops checking, whatever input would show it. MilenageGenerate "
+                    "is TRANSLATED too (the generated text is rebuilt and type-checked on every run) but not yet "
+                    "tied by a theorem: for it the differential domain `milenage` remains the tie. Trusted here instead of sampling: the "
+                    "buffer grammar (header of pure_milenage.go) and its runtime Gen/PureRt.lean + Gen/PureRtBuf.lean: a slice parameter the "
+                    "function writes is an OUT-PARAMETER returned with the Go results (nothing is said about buffers after a panic); ASSUMED "
+                    "of external callers, as by the hand model: an out-parameter shares no storage with another slice argument and every "
+                    "slice argument has cap == len (so x[a:b] traps exactly when b > len x); checked for the calls inside the group; nil-able "
+                    "buffers as Option Bytes; counted loops as the fuel combinator Go.forLt (bound visible); copy(x[a:], ...) as Go.copyAt "
+                    "(memmove); `f() != nil || g() != nil` with g's writes only when f returned nil. Library record Lib: aes.NewCipher, "
+                    "cipher.Block.BlockSize / Encrypt (dst overwritten, nothing else changes), reflect.DeepEqual on non-nil slices are "
+                    "parameters; the tie instantiates them by libOf over Prims.aes (a block = its key, nil after a NewCipher error; NewCipher "
+                    "accepts 16/24/32-octet keys; Encrypt panics unless src and dst have 16 octets, then dst[0:16] = aes(key, src[0:16])) under "
+                    "AesLen: aes returns 16 octets for 16-octet blocks (the assumption of the first line, for every key length NewCipher "
+                    "accepts). The grammar and runtime are checked against the Go compiler on every run: gen pure-selftest-mil translates "
+                    "harness/cmd/gen/pureselftest/buf.go (every construct, stand-in library transcribed to Lean) and writes the outcomes of "
+                    "EXECUTING the compiled functions beside the translation (Gen/PureSelftestMil.lean: 822 calls, about half of them traps, "
+                    "each with the Go results and every out-parameter afterwards, as kernel-checked equalities)"]
     assumptions = ["K is 128 bits (aes.NewCipher would also accept 24/32-octet keys; never generated)",
                    "callers pass output buffers of the documented sizes (RES 8, CK/IK 16, AK 6, AUTN 16, AUTS 14, SQN 6)"]
 
